@@ -266,7 +266,8 @@ def r4_query_scope(P, rep, ctx):
     any_member = q.tests(f"({sn}, {sv}) in __n.meta") + q.tests("__k in __n.meta")
     rep.check(bool(member_start) and {t for t, l in any_member} == {t for t, l in member_start}, "C07.R4", qfi.qual, "start node is tested with the requested (name, version)", qfi.loc(), construct="start node test",
               message="the start node is not tested with `(schema_name, schema_ver) in start_node.meta`: the requested version is ignored for the start node")
-    coll = qfi.nested.get("collect_nodes") or next(iter(qfi.nested.values()), None)
+    cbn = [b["__cb"].id for i, c, b in vis_sites if isinstance(b["__cb"], ast.Name) and b["__cb"].id in qfi.nested]
+    coll = qfi.nested.get(cbn[0]) if cbn else None
     if coll is None:
         raise AnalysisError("C07.R4: collector function of query not found")
     cf = F(ctx, coll)
